@@ -16,10 +16,13 @@ Theorems: coq/Properties/C16.v.  Ties (correspondence by execution):
 Independent oracle (sweep): the abstract deck (which cards are flagged, the
 reference MCNP sense function of each card from mcnpref) against the written
 file only: every ALL_COMPLETE line designates a written SURF, that SURF has the
-locus of a flagged card of that kind (sign pattern of t4eval vs mcnpref on
-sample points), every flagged card bounding a written cell has such a line, no
-two lines designate the same SURF, the count is right, a flagged multi-facet
-macrobody stops the run.  The sweep also runs on decks outside the model
+locus of a flagged card of that kind, possibly moved by the TRCL / FILL
+translation of a cell naming it (sign pattern of t4eval vs mcnpref on sample
+points), every flagged card bounding a written cell has such a line for each
+locus it takes, no two lines designate the same SURF, a line naming an
+unflagged card needs a coincident flagged duplicate merged into it, the count
+is right, a flagged multi-facet macrobody stops the run, a ValueError is
+accepted only for coincident loci flagged differently.  The sweep also runs on decks outside the model
 (unions, complements, TRCL, TR on surfaces, one-sheet cones and macrobodies
 referenced by cells).'''
 import json
